@@ -421,4 +421,38 @@ Section Spec.
     - intros (k' & E & _). inversion E; subst; reflexivity.
     - intros ->. exists k. split; auto. apply all_kinds_complete.
   Qed.
+  (* the statements at the real call site: twelve keywords, each its own spec *)
+  Theorem keywords_table n (f : kind -> spec) tab : (forall k, wf_spec (f k)) ->
+    validate_table truthy n (keywords f) = Ok tab ->
+    length tab = n /\
+    (forall m k p, nth m tab None = Some (k, p) <-> requested n (f k) m p) /\
+    (forall m, nth m tab None = None <-> forall k p, ~ requested n (f k) m p).
+  Proof.
+    intros W H. destruct (validate_table_ok n _ tab (keywords_wf f W) H) as (L & A & B).
+    split; [exact L|]. split.
+    - intros m k p. rewrite A. split.
+      + intros (s & Hin & Hr). apply keywords_In in Hin. subst s. exact Hr.
+      + intros Hr. exists (f k). split; [apply keywords_In; reflexivity | exact Hr].
+    - intros m. rewrite B. split.
+      + intros Hno k p. apply (Hno k (f k) p). apply keywords_In; reflexivity.
+      + intros Hno k s p Hin. apply keywords_In in Hin. subst s. apply Hno.
+  Qed.
+
+  Theorem keywords_err_iff n (f : kind -> spec) : (forall k, wf_spec (f k)) ->
+    (validate_table truthy n (keywords f) = Err <->
+     (exists k1 k2 m p1 p2, k1 <> k2 /\ requested n (f k1) m p1 /\ requested n (f k2) m p2) \/
+     (exists k m p, requested n (f k) m p /\ n <= m)).
+  Proof.
+    intros W. rewrite (validate_table_err_iff n _ (keywords_wf f W)). unfold double, out_of_range, Hits. split.
+    - intros [(k1 & s1 & k2 & s2 & m & I1 & I2 & Hne & H1 & H2) | (m & (k & s & I & Hh) & Hge)].
+      + apply keywords_In in I1, I2. subst. apply hits_requested in H1, H2.
+        destruct H1 as (p1 & H1). destruct H2 as (p2 & H2). left. exists k1, k2, m, p1, p2. auto.
+      + apply keywords_In in I. subst. apply hits_requested in Hh. destruct Hh as (p & Hr).
+        right. exists k, m, p. auto.
+    - intros [(k1 & k2 & m & p1 & p2 & Hne & H1 & H2) | (k & m & p & Hr & Hge)].
+      + left. exists k1, (f k1), k2, (f k2), m. repeat split; auto; try (apply keywords_In; reflexivity);
+          apply hits_requested; eauto.
+      + right. exists m. split; auto. exists k, (f k). split; [apply keywords_In; reflexivity|].
+        apply hits_requested; eauto.
+  Qed.
 End Spec.
